@@ -22,7 +22,7 @@ theorem xdoc_goal (lc : Libc) (hl : LibcSpec lc) : ∀ x, XGoal lc x := by
     exact parsed_num lc hl t l cur none rest hwf hs hv hhs n (by simpa [XDoc.ok] using hok) (fun h => by rw [hns] at h; cases h)
   | hstr q items =>
     intro t l cur rest hwf hs hv hhs hl0 hns hok _ _
-    exact parsed_qstring lc t l cur none rest hwf hs hv hhs hl0 q (Or.inr hns) items (by simpa [XDoc.ok] using hok)
+    exact parsed_qstring_x lc t l cur none rest hwf hs hv hhs hl0 hns q items (by simpa [XDoc.ok] using hok)
   | harr g es tr ih =>
     intro t l cur rest hwf hs hv hhs hl0 hns hok hknf hdepth
     have h1 := open_array lc t l hv cur none rest hs
